@@ -57,7 +57,7 @@ class Prop:
     rule = ("(a) the corpus of defect witnesses (mut.CORPUS + C02 witnesses); (b) exhaustive: every ordered forest with <= 3 nodes "
             "(thorough 4) under three labelings (distinct / equal-comparing objects under distinct explicit ids / clones in different parents) x "
             "every single add, shortcut, add(node), copy_to, move, remove x keep_children x with_clones, remove_children, clear, del, set_data over "
-            "data x data_id x with_clones, rename (quick: thinned products at 3 nodes); (c) seeded random histories of <= 30 (thorough 40) steps "
+            "data x data_id x with_clones, rename (quick: thinned products at 3 nodes); (b') three trees (id rule hash mod 7 / hash / name) with FALSY ids 0 and '' by callback and by hash x new nodes with explicit ids 0 / '', copies of the falsy-id nodes into the tree without callback (shallow, deep, add(tree), Tree.copy, Node.copy), set_data to falsy ids and to equal-but-distinct objects (DictWrapper, value-equal); (c) seeded random histories of <= 30 (thorough 40) steps "
             "over 1-3 trees (plain/typed; calc_data_id = default hash / name / hash mod 7 / raising on one object), universe of 13 objects of all "
             "flavours; a third of the steps are aimed: set_data on singletons (data, id, both, falsy), on clone groups with_clones=True (merge of "
             "two groups) and with_clones=False (split of the first / middle / last member), removal of one of several clones, re-adding a "
@@ -116,11 +116,14 @@ class Prop:
                 alts = [a for a in alts if a[0] not in [f for f, _ in thin] or id(a) in keep]
             for i in range(0, len(alts), CHUNK):
                 yield dict(kind="alts", univ=g["univ"], setup=g["setup"], alts=alts[i:i + CHUNK], label=g["label"])
+        for g in mut_c02.gen_falsy():
+            for i in range(0, len(g["alts"]), CHUNK):
+                yield dict(kind="alts", univ=g["univ"], setup=g["setup"], alts=g["alts"][i:i + CHUNK], label=g["label"])
         if not quick:
             for g in mut.gen_exhaustive(3, typed=(True,), families=FAMILIES):
                 for i in range(0, len(g["alts"]), CHUNK):
                     yield dict(kind="alts", univ=g["univ"], setup=g["setup"], alts=g["alts"][i:i + CHUNK], label=g["label"] + "/typed")
-        nrand = 50 if quick else 800
+        nrand = 40 if quick else 800
         for i in range(nrand):
             n_ops = rng.randint(10, 30 if quick else 40)
             h = mut_c02.gen_history(rng, n_ops, malformed=(i % 5 == 4))
